@@ -48,7 +48,7 @@ def _drive(args):
         events.append(drv.ev('cut', k))
         if onfile:
             import os
-            path = os.path.join(core.VERIF, '.work', 'c09-%d-%d.bin' % (os.getpid(), tid))
+            path = os.path.join(core.VERIF, '.work', 'c09-%d-%d-%d.bin' % (os.getpid(), tid, lo))
             with open(path, 'wb') as fh:
                 fh.write(data[:k])
             with open(path, 'rb') as fh:
@@ -133,7 +133,10 @@ def run(rep, wd, tier, seed):
     for lo in (4086, 8182, 16374, 24566):
         jobs.append((seed, 5000 + lo, False, -99999, 0, lo, lo + 24))
     jobs.append((seed, 5999, False, -99999, 0, 10 ** 6, 10 ** 6))          # the complete file
-    traces = [t for t in vbsc.parallel(_drive, jobs) if len(t['events']) > 1]
+    from . import isocheck
+    tjobs = [(seed, 7000 + k, bool(k & 1), (2, 3, 5)[k % 3], 2 * P - 30, lo, lo + 299) for k in range(4) for lo in (0, 900)]
+    touts = isocheck.mark_threaded([[t] for t in isocheck.threaded('harness.c09', '_drive', tjobs, procs=2)])
+    traces = [t for t in vbsc.parallel(_drive, jobs) + [o[0] for o in touts] if len(t['events']) > 1]
     cuts = sum(1 for t in traces for e in t['events'] if e['op'] == 'cut')
     rep.extra['cuts_read_with_real_reader'] = cuts
     rep.extra['files'] = nfiles
